@@ -125,6 +125,7 @@ func c20norm(v interface{}) interface{} {
 
 func init() {
 	register("C20", func(e *Env) {
+		renderPrelude()
 		pre := "From Plush Require Import model.Bytes model.Text model.Cases.\n"
 		for _, k := range []string{"c20t", "c20h", "c20j", "c20json"} {
 			shardPrelude[k] = pre
@@ -356,6 +357,19 @@ func init() {
 			e.Count("held-results-template")
 			if o.Class != "OK" || o.Out != tc[1] {
 				e.Violate("c20-json", fmt.Sprintf("%s rendered %q (%s %s), want %q", tc[0], o.Out, o.Class, o.Msg, tc[1]), map[string]interface{}{"tmpl": tc[0], "observed": o})
+			}
+		}
+		e.flushShard()
+		// raw(s) reaches the OUTPUT byte-identical: through Render, for every kind of byte string (bytes that
+		// are not UTF-8 included), alone, next to text, inside blocks, several times
+		for _, p := range append(append([]string{}, c20strs...), "a\xffb", "cut: \xe4\xb8", "\x80\x80", "\xed\xa0\x80", "\xf0\x9f\x98", "ok\xc3", "<\xfe>&\xff;", "\x00mid\x00") {
+			for _, t := range [][2]string{{"<%= raw(p) %>", p}, {"[<%= raw(p) %>|<%= raw(p) %>]", "[" + p + "|" + p + "]"}, {"<%= if (true) { %><%= raw(p) %><% } %>.", p + "."},
+				{"<% let r = raw(p) %><%= for (i) in [1, 2] { %><%= r %>,<% } %>", p + "," + p + ","}, {"<% let f = fn(v) { return raw(v) } %><%= f(p) %>", p}} {
+				c := RCase{Tmpl: t[0], Binds: []Bind{{"p", vStr(p)}}}
+				o := e.addRenderCase("raw-through-render", c)
+				if o.Class != "OK" || o.Out != t[1] {
+					e.Violate("c20-raw", fmt.Sprintf("%s with p = %q rendered %q (%s %s), want %q", t[0], p, o.Out, o.Class, firstLine(o.Msg), t[1]), map[string]interface{}{"case": c, "observed": o})
+				}
 			}
 		}
 		_ = sort.Strings
